@@ -2,6 +2,7 @@ import DFV.Lemmas.C19Tcd
 import DFV.Lemmas.C19Mesh
 import DFV.Lemmas.C19Demag
 import DFV.Lemmas.C19Conv
+import DFV.Lemmas.C19Real
 /-!
 # C19 — topological and demagnetisation tools obey their physical invariances
 
@@ -533,5 +534,39 @@ theorem refusals (sq acos deg : Rat → Rat) (pi : Rat) (Om : Tri → Rat) (f : 
     · split
       · exact ⟨_, rfl⟩
       · rw [hd]; exact ⟨_, rfl⟩
+
+/-! ## The leaf hypotheses hold for the real functions; the trace with the real functions -/
+
+/-- REAL-SPACE TRACE `N_xx + N_yy + N_zz = −δ` WITH THE REAL `arcsinh`, `arctan`, `sqrt` (no
+hypothesis on leaves): at displacement `(i·c0, j·c1, k·c2)` the three diagonal components of
+`_N` — symbolic Newell terms of the model evaluated in ℝ by `lvR` — add up to `−π/pi` at the
+origin and to `0` elsewhere, `pi` being the rational the code uses for `np.pi`
+(`|π/pi − 1| < 2⁻⁵²`).  Valid for all positive rational cell edges: the cell sizes are permuted
+together with the coordinates (the repaired D20). -/
+theorem demag_trace (pi c0 c1 c2 : Rat) (hpi : pi ≠ 0) (h0 : 0 < c0) (h1 : 0 < c1) (h2 : 0 < c2) (i j k : Int) :
+    traceK lvR pi c0 c1 c2 ((i : Rat) * c0) ((j : Rat) * c1) ((k : Rat) * c2)
+      = if i = 0 ∧ j = 0 ∧ k = 0 then -(Real.pi / (pi : ℝ)) else 0 :=
+  demag_trace_real pi c0 c1 c2 hpi h0 h1 h2 i j k
+
+/-- the analytic ingredient: `atan(bc/(aR)) + atan(ca/(bR)) + atan(ab/(cR)) = π/2` for the real arctangent -/
+theorem arctan_sum_identity (a b c : ℝ) (ha : 0 < a) (hb : 0 < b) (hc : 0 < c) :
+    Real.arctan (b * c / (a * √(a ^ 2 + b ^ 2 + c ^ 2))) + Real.arctan (c * a / (b * √(a ^ 2 + b ^ 2 + c ^ 2)))
+      + Real.arctan (a * b / (c * √(a ^ 2 + b ^ 2 + c ^ 2))) = Real.pi / 2 :=
+  arctan_sum a b c ha hb hc
+
+/-- The Berg–Lüscher angle of `util.bergluescher_angle`, `2·Im log((1+d₁₂+d₂₃+d₃₁ + i·t)/ρ)/(4π)`
+over ℝ/ℂ, is odd in the triple product (the hypothesis `hOm` of `tcd_reversal`), and for `ρ > 0`
+it is `2·arg(1+d₁₂+d₂₃+d₃₁ + i·t)/(4π)` (what the harness evaluates with `atan2`). -/
+theorem bl_angle_real (tr : Tri) :
+    (tr.t ≠ 0 → omegaR (flipT tr) = -omegaR tr) ∧
+    (0 < 2 * (1 + (tr.d12 : ℝ)) * (1 + tr.d23) * (1 + tr.d31) →
+      omegaR tr = 2 * Complex.arg (⟨1 + (tr.d12 : ℝ) + tr.d23 + tr.d31, (tr.t : ℝ)⟩ : ℂ) / (4 * Real.pi)) :=
+  ⟨omegaR_flip tr, omegaR_eq_arg tr⟩
+
+/-- The hypotheses on `acos` (`angle_range`) and on `sq` (`orientation_scale`, `orientation_unit`)
+hold for the real arccosine and square root. -/
+theorem leaf_hypotheses_real (x s : ℝ) (hs : 0 ≤ s) (hx : 0 ≤ x) :
+    (0 ≤ Real.arccos x ∧ Real.arccos x ≤ Real.pi) ∧ √(s * s * x) = s * √x ∧ √x * √x = x :=
+  ⟨arccos_range x, sqrt_homogeneous s x hs, sqrt_squares_back x hx⟩
 
 end DFV.C19
